@@ -30,14 +30,15 @@ CHECKS["C03"] = {
 
 CHECKS["C19"] = {
     "engine": "sa",
-    "technique": "path-sensitive must-fact (guard dominance) and path-counting dataflow over Comms; who-may-write scan",
+    "technique": "path-sensitive must-fact (guard dominance) and path-counting dataflow over Comms (private helpers inlined by AST partial evaluation); case analysis of the poll guard over rule-table states; who-may-write scan",
     "design_ref": "DESIGN.md section 4 C19",
     "text": ("Decides for every rule history and every receive-fault position the structural clauses of exactly-once "
              "delivery: a possibly-None receive never reaches a forward/sink call (dominating not-None fact), registration "
              "methods return True exactly on table-mutating paths, appends/removes are membership-guarded (no duplicate "
              "rules, no clobbered lists), fan-out loops are keyed by the receiving endpoint with exactly one delivery per "
-             "element carrying the received value, spin sends each source once to its own endpoint, and only the "
-             "registration methods write the rule tables."),
+             "element carrying the received value, spin sends each source once to its own endpoint and polls every endpoint "
+             "that has an active forwarding rule or sink whatever the state of the other table (guard evaluated for every "
+             "combination of key-present / list-non-empty), and only the registration methods write the rule tables."),
     "note": ("Trusted: endpoints honour the CommsObject interface; real socket behaviour (shutdown on an unconnected UDP "
              "socket etc.) is not modelled."),
 }
